@@ -20,6 +20,29 @@ int main() {
     std::vector<vh::Sx> a = vh::ParseLine(line);
     std::string out;
     if (a.size() < 2) out = "HARNESS-ERROR short";
+    else if (a[0].a == "seq") {
+      // seq (T v) (T v) ... : write all back to back, then read all back
+      vh::SharedWriter() = vh::IWriter();
+      std::string w, r;
+      for (size_t i = 1; i < a.size(); i++) {
+        auto it = reg.core.find(a[i].l.at(0).a);
+        if (it == reg.core.end()) { w += " ?"; continue; }
+        vh::Sx op; op.a = "wput";
+        w += " [" + it->second({op, a[i].l[0], a[i].l.at(1)}) + "]";
+      }
+      std::vector<std::uint8_t> bytes = vh::SharedWriter().out;
+      bytes.push_back(0xff);   // a continuation that must be left untouched
+      vh::HeapBytes in(bytes);
+      vh::SharedReader() = vh::IReader();
+      vh::SharedReader().data = in.p; vh::SharedReader().size = in.n;
+      for (size_t i = 1; i < a.size(); i++) {
+        auto it = reg.core.find(a[i].l.at(0).a);
+        if (it == reg.core.end()) { r += " ?"; continue; }
+        vh::Sx op; op.a = "rget";
+        r += " [" + it->second({op, a[i].l[0]}) + "]";
+      }
+      out = "w=" + w + " | r=" + r + " | total=" + std::to_string(bytes.size() - 1);
+    }
     else {
       bool lib = (a[0].a == "encw" || a[0].a == "decr");
       auto& tab = lib ? reg.lib : reg.core;
